@@ -111,8 +111,10 @@ def program(w, rho, queries, kinds):
     src += "    let mut hs: Vec<String> = Vec::new();\n"
     for (an, comps) in dw:
         tup = ", ".join(f"{c}(0)" for c in comps) + ("," if len(comps) == 1 else "")
-        src += f"    let e_{an} = world.create::<{an}>(({tup}));\n    hs.push(format!(\"{{}}\", e_{an}.archetype_id()));\n"
-        hexp.append(ids[an])
+        src += (f"    let e_{an} = world.create::<{an}>(({tup}));\n"
+                f"    hs.push(format!(\"{{}}/{{}}/{{}}\", e_{an}.archetype_id(), SelectArchetype::try_from(e_{an}.into_any()).map(|s| s.archetype_id() as i32).unwrap_or(-1), "
+                f"SelectArchetype::try_from(<{an} as Archetype>::ARCHETYPE_ID).map(|s| s.archetype_id() as i32).unwrap_or(-1)));\n")
+        hexp.append(f"{ids[an]}/{ids[an]}/{ids[an]}")
     src += "    println!(\"handles {}\", hs.join(\",\"));\n"
     expected.append("handles " + ",".join(hexp))
     for qi, (q, kind) in enumerate(zip(queries, kinds)):
@@ -156,12 +158,26 @@ def gen_programs(seed, n_cases):
     tries = 0
     while len([p for p in out if p["expect"] == "run"]) < n_cases and tries < n_cases * 40:
         tries += 1
-        k = rng.choice([0, 1, 2, 2, 3, 3])
+        heavy = rng.random() < 0.5     # cfg-heavy cases: several DISTINCT predicates with MIXED truth values
+        k = rng.choice([2, 3, 3, 4]) if heavy else rng.choice([0, 1, 2, 2, 3, 3])
         preds = rng.sample(mac.PREDS, k)
         w = mac.gen_world(rng, preds)
-        qs_all = [mac.gen_query(rng, w, preds) for _ in range(4)]
+        qs_all = [mac.gen_query(rng, w, preds) for _ in range(5 if heavy else 4)]
+        if heavy:
+            # decorate most parameters, each with its own predicate where possible
+            nq = []
+            for q in qs_all:
+                q2 = []
+                for i, (cf, m, t) in enumerate(q):
+                    if not t.startswith("O.") and rng.random() < 0.65:
+                        cf = [preds[(i + rng.randrange(k)) % k]] + ([rng.choice(preds)] if rng.random() < 0.2 else [])
+                    q2.append((cf, m, t))
+                nq.append(q2)
+            qs_all = nq
         used = sorted({p for a in w[1] for p in a[0]} | {p for a in w[1] for c in a[3] for p in c[0]} | {p for q in qs_all for prm in q for p in prm[0]})
         rho = {p: rng.random() < 0.55 for p in used}
+        if heavy and len(used) >= 2 and len(set(rho.values())) == 1:
+            rho[rng.choice(used)] = not rho[used[0]]
         exp = mac.expected_world(w, rho)
         n = len(out)
         if exp.startswith("err:parse"):
@@ -249,7 +265,14 @@ def run_programs(progs, crate_dir, target_dir, env):
                 r_["unexpected_error"] = True
         else:
             if not r_["compiled"]:
-                r_["unexpected_error"] = True
+                t_ = results.get(p.get("twin", ""))
+                if p["expect"] == "run" and t_ and t_["compiled"]:
+                    # the decorated program is rejected although the same program with the disabled
+                    # items not written and the attributes removed compiles: not "as if absent"
+                    hits.append({"property": "C16", "class": "e2e-erasure-verdict", "program": p["name"],
+                                 "what": f"the decorated program does not compile ({r_['errors'][:1]}) although its erased twin does"})
+                else:
+                    r_["unexpected_error"] = True
                 continue
             if r_.get("output") != p["expected"]:
                 diff = next(((a, b) for a, b in zip(r_.get("output", []) + ["<missing>"] * 9, p["expected"]) if a != b), None)
